@@ -196,6 +196,39 @@ pub proof fn lemma_w(d: V3, dd: V3)
 {}
 '''
 
+CROSS_LEMMA = r'''
+// cross component: o = fma(a1, a2, -(fl(b1*b2))): a = a1*a2, b = b1*b2 exact products, p = fl(b)
+pub open spec fn cross_bound(a: real, b: real) -> real { 0.00000006real * 2.1real * (absr(a) + absr(b)) + 10real * 0.000000000000000000000000000000000000000000002real }
+pub proof fn lemma_cross_error(a: real, b: real, p: real, o: real)
+    requires rnd(b, p), fma_bound(a, -p, o)
+    ensures absr(o - (a - b)) <= cross_bound(a, b)
+{
+    let u = 0.00000006real; let e = 0.000000000000000000000000000000000000000000002real;
+    assert(absr(p) <= absr(b) + (u * absr(b) + e));
+    assert(absr(-p) == absr(p));
+    assert(u * absr(p) <= u * (absr(b) + (u * absr(b) + e))) by(nonlinear_arith) requires absr(p) <= absr(b) + (u * absr(b) + e), u == 0.00000006real;
+    assert(u * (u * absr(b)) <= 0.0000001real * (u * absr(b))) by(nonlinear_arith) requires u == 0.00000006real, absr(b) >= 0real;
+    assert(u * e <= e) by(nonlinear_arith) requires u == 0.00000006real, e >= 0real;
+    assert(u * (absr(b) + (u * absr(b) + e)) == u * absr(b) + (u * (u * absr(b)) + u * e)) by(nonlinear_arith);
+    assert(0.0000001real * (u * absr(b)) == u * (0.0000001real * absr(b))) by(nonlinear_arith);
+    assert(u * (2.0000001real * absr(a) + absr(p)) == u * (2.0000001real * absr(a)) + u * absr(p)) by(nonlinear_arith);
+    assert(u * 2.1real * (absr(a) + absr(b)) == u * (2.1real * absr(a)) + u * (2.1real * absr(b))) by(nonlinear_arith);
+    assert(u * (2.0000001real * absr(a)) <= u * (2.1real * absr(a))) by(nonlinear_arith) requires u == 0.00000006real, absr(a) >= 0real;
+    assert(u * absr(b) + u * absr(b) + u * (0.0000001real * absr(b)) <= u * (2.1real * absr(b))) by(nonlinear_arith) requires u == 0.00000006real, absr(b) >= 0real;
+}
+// C19: cross for entries in [-2,2] (|a|, |b| <= 4): within 1.1e-6 <= 1e-5*max(1,|exact|); component_mul / scalar_div are one rounding: relative 6e-8
+pub proof fn lemma_c19_cross(a: real, b: real, o: real)
+    requires absr(a) <= 4real, absr(b) <= 4real, absr(o - (a - b)) <= cross_bound(a, b)
+    ensures absr(o - (a - b)) <= 0.0000011real
+{}
+pub proof fn lemma_c19_single(z: real, r: real)
+    requires rnd(z, r)
+    ensures absr(r - z) <= 0.00001real * (if absr(z) >= 1real { absr(z) } else { 1real })
+{
+    assert(0.00000006real * absr(z) <= 0.00001real * absr(z)) by(nonlinear_arith) requires absr(z) >= 0real;
+}
+'''
+
 C19_LEMMA = r'''
 // C19: for entries and operands in [-2,2] every product entry is within 1e-5*max(1,|exact|) of the exact value (in fact within 2.3e-6)
 pub proof fn lemma_c19_products(a0: real, a1: real, a2: real, out: real)
@@ -265,7 +298,27 @@ def build(repo):
     cd = C(ensures=[rerr('self', 'other.0', 'other.1', 'other.2', 'r')],
            head='        proof { T::ax(); ' + row_proof('self', 'other.0', 'other.1', 'other.2') + ' }')
     g.under_contract.append({'fn': 'RowVector::dot (T: Rounded)', 'src': f'{REL}:{src.line_of(sp[0])}', 'requires': [], 'ensures': cd.ensures})
-    g.add(hdr_r + ' {\n' + apply_contract(src.get(sp), cd, g.dropped) + '\n}\n')
+    # ---- C19 single-operation functions under the standard model: cross (fma of a rounded, negated product), component_mul, scalar_div
+    def cr(out, a1, a2, b1, b2):
+        return f'absr({out}.val() - ({a1}.val() * {a2}.val() - {b1}.val() * {b2}.val())) <= cross_bound({a1}.val() * {a2}.val(), {b1}.val() * {b2}.val())'
+    def cr_proof(a1, a2, b1, b2):
+        return (f'let p = {b1}.mul_spec({b2}); let q = p.neg_spec(); let o = {a1}.fma_spec({a2}, q); '
+                f'lemma_cross_error({a1}.val() * {a2}.val(), {b1}.val() * {b2}.val(), p.val(), o.val());')
+    sp = src.find('fn', 'cross', within=(imr[2], imr[3]), keep_attrs=True)
+    cc = C(ensures=[cr('r.0', 'self.1', 'other.2', 'self.2', 'other.1'), cr('r.1', 'self.2', 'other.0', 'self.0', 'other.2'), cr('r.2', 'self.0', 'other.1', 'self.1', 'other.0')],
+           head='        proof { T::ax(); ' + cr_proof('self.1', 'other.2', 'self.2', 'other.1') + ' ' + cr_proof('self.2', 'other.0', 'self.0', 'other.2') + ' ' + cr_proof('self.0', 'other.1', 'self.1', 'other.0') + ' }')
+    g.under_contract.append({'fn': 'RowVector::cross (T: Rounded)', 'src': f'{REL}:{src.line_of(sp[0])}', 'requires': [], 'ensures': cc.ensures})
+    parts = [apply_contract(src.get(sp), cd, g.dropped) for sp, cd in ((src.find('fn', 'dot', within=(imr[2], imr[3]), keep_attrs=True), cd), (sp, cc))]
+    sp = src.find('fn', 'component_mul', within=(imr[2], imr[3]), keep_attrs=True)
+    ccm = C(ensures=[f'rnd(self.{i}.val() * other.{i}.val(), r.{i}.val())' for i in range(3)], head='        proof { T::ax(); }')
+    g.under_contract.append({'fn': 'RowVector::component_mul (T: Rounded)', 'src': f'{REL}:{src.line_of(sp[0])}', 'requires': [], 'ensures': ccm.ensures})
+    parts.append(apply_contract(src.get(sp), ccm, g.dropped))
+    sp = src.find('fn', 'scalar_div', within=(imr[2], imr[3]), keep_attrs=True)
+    csd = C(ensures=[f'x.val() != 0real ==> rnd(self.{i}.val() / x.val(), r.{i}.val())' for i in range(3)], head='        proof { T::ax(); }')
+    g.under_contract.append({'fn': 'RowVector::scalar_div (T: Rounded)', 'src': f'{REL}:{src.line_of(sp[0])}', 'requires': [], 'ensures': csd.ensures})
+    parts.append(apply_contract(src.get(sp), csd, g.dropped))
+    g.add(CROSS_LEMMA)
+    g.add(hdr_r + ' {\n' + '\n'.join(parts) + '\n}\n')
     g.add(C19_LEMMA)
     g.dropped.append('U-round: only `struct RowVector/Matrix` and `Matrix::mul_arr` are extracted from matrix.rs; `+ Rounded` appended to the generic where-clause')
     g.assumed.append('SM: standard model of binary32 arithmetic (each rounding has relative error <= 2^-24 plus 2^-149 absolute; no overflow at these magnitudes); both the fused and the unfused fast_mul_add satisfy fma_bound (proved: lemma_fused_fma / lemma_unfused_fma)')
